@@ -75,6 +75,12 @@ CLAIMED = {
         note='Data bytes range over 6 values (the byte is realised by the per-byte timing table). A data block that follows a pause with no pulses of its own has no edge at the end of the pause: its first pulse is checked as pause+width (an edge list '
              'records level changes only). write_pzx adds the PZX-conventional 945 T tail pulse, which TAP lacks: allowed. Outside: long data, direct recording / generalized data / CSW blocks, tapinfo text, start/stop/skip.',
         design='4 (C11)', technique=TECH),
+    'C14': dict(
+        text='snactl.generate_ctls (both generators, with and without a code map) is run on short ranges: 7 code-like prefixes followed by 1-2 (thorough 3) bytes ranging over 18 representative values, plus 0-2 such bytes beyond END so that the last '
+             'instruction can straddle it; on every path the directives start at START, strictly increase, end with i at END, and every code-map address lies in a c block.',
+        note='Narrow and enumeration-driven: the decoder tables are dictionaries keyed by byte value, so the solver only enumerates the byte combinations (stated in the evidence). Outside: termination in general, text heuristics on long data, '
+             '-C/-r sub-block directives vs sna2skool, large images, other code-map formats.',
+        design='4 (C14)', technique='solver-driven enumeration of short windows through the real generators (bytes realised via z3 models); tiling assertions per path'),
 }
 NOT_APPLICABLE = {
     'C16': 'HTML link/anchor consistency is a property of generated document structure (which files and id= strings exist); there is no bounded arithmetic/data path to make symbolic - a solver encoding would be a copy of the writer (DESIGN.md section 5).',
